@@ -245,3 +245,68 @@ def gen_C16(tier, rng):
     for kl in (16, 32):
         for pat in (b"\x00", b"\xff", b"\x80"):
             yield (f"stream.eng2 20 {hx(pat * kl)} {hx(pat * 12)} s;b;h", f"chacha.eng2.k{kl}.pattern")
+
+
+# ----------------------------------------------------------------------------- C20 (stream part)
+
+def _harness_rounds():
+    """the round counts harness/src/ops_stream.rs instantiates for the context ops and the DRG (`with_rounds_ctx!`;
+    8/12/20/10 if that macro is not there): everything but 8, 12, 20 must be refused by the constructors' assert"""
+    import os
+    import re
+    src = os.path.join(os.path.dirname(os.path.abspath(__file__)), "..", "..", "harness", "src", "ops_stream.rs")
+    try:
+        m = re.search(r"macro_rules! with_rounds_ctx(.*?)_ =>", open(src).read(), re.S)
+    except OSError:
+        m = None
+    return tuple(int(x) for x in re.findall(r"(\d+) => \$f", m.group(1))) if m else (8, 12, 20, 10)
+
+
+KEYLENS_C20 = (0, 1, 15, 16, 17, 24, 31, 32, 33, 64, 1000)
+
+
+def gen_C20(tier, rng):
+    """the refusal matrix of the five context constructors, `process` and `Drg::new`: key lengths one below / above
+    16 and 32, zero, huge; every round count the harness instantiates (legal: 8, 12, 20; refused: one below / above
+    each, 0, 1, 2^32-1); output buffers of another length; next to each refused value the nearest accepted one.
+    Nonce lengths (and the key of the X variants) are array types: they cannot be passed."""
+    rounds = _harness_rounds()
+    bad_rounds = tuple(r for r in rounds if r not in ROUNDS)
+    probe = "m" + "00" * 5
+    for var, (op, klens, nl, pos, mod) in VARIANTS.items():
+        # key length x legal round count
+        if klens != (32,):
+            for R in ROUNDS:
+                for kl in KEYLENS_C20:
+                    kind = "accept.keylen" if kl in klens else "refuse.keylen"
+                    yield (f"{op} {R} {hx(rng.rbytes(kl))} {hx(rng.rbytes(nl))} {probe}", f"{var}.{kind}")
+        # round count x legal key length; both wrong at once
+        for R in rounds:
+            for kl in klens:
+                kind = "accept.rounds" if R in ROUNDS else "refuse.rounds"
+                yield (f"{op} {R} {hx(rng.rbytes(kl))} {hx(rng.rbytes(nl))} {probe}", f"{var}.{kind}")
+                yield (f"{op} {R} {hx(rng.rbytes(kl))} {hx(rng.rbytes(nl))} -", f"{var}.{kind}")
+        if klens != (32,):
+            for R in bad_rounds:
+                yield (f"{op} {R} {hx(rng.rbytes(rng.choice([0, 15, 17, 33])))} {hx(rng.rbytes(nl))} {probe}",
+                       f"{var}.refuse.rounds+keylen")
+        # `process(input, output)` with an output buffer of another length, fresh and mid-block, then one more call
+        for n in (0, 1, 63, 64, 65, 200):
+            data = rng.rbytes(n)
+            R, kl = rng.choice(ROUNDS), rng.choice(klens)
+            head = f"{op} {R} {hx(rng.rbytes(kl))} {hx(rng.rbytes(nl))}"
+            yield (f"{head} P{n}:{hx(data)};{probe}", f"{var}.accept.outlen")
+            for m in sorted({0, n - 1, n + 1, 2 * n, n + 64, 100000}):
+                if m < 0 or m == n:
+                    continue
+                pre = rng.choice(["", "m" + rng.rbytes(7).hex() + ";", "p" + rng.rbytes(64).hex() + ";"])
+                yield (f"{head} {pre}P{m}:{hx(data)};{probe}", f"{var}.refuse.outlen")
+        # positioning: every counter value is legal (no refusal exists)
+        for c in (0, 1, mod - 1):
+            R, kl = rng.choice(ROUNDS), rng.choice(klens)
+            yield (f"{op} {R} {hx(rng.rbytes(kl))} {hx(rng.rbytes(nl))} {pos}{c};{probe};m{rng.rbytes(70).hex()}",
+                   f"{var}.accept.seek")
+    for R in rounds:
+        kind = "accept.rounds" if R in ROUNDS else "refuse.rounds"
+        yield (f"stream.drg {R} {hx(rng.rbytes(32))} b8;w;q", f"drg.{kind}")
+        yield (f"stream.drg {R} {hx(rng.rbytes(32))} -", f"drg.{kind}")
